@@ -4,7 +4,7 @@
    The property theorems of props/C06.v (the ring holds the most recent min(n, C) insertions, fields of one slot come from
    one insertion) are proved about soa_add. *)
 From Coq Require Import List ZArith QArith Bool Lia.
-From Lerax Require Import KBase Replay.
+From Lerax Require Import KBase Env Replay.
 From LeraxGen Require Import GenK_C06.
 
 Lemma idx_nat p C : (0 < C)%nat -> Z.to_nat (Z.of_nat p mod Z.of_nat C) = (p mod C)%nat.
@@ -32,3 +32,44 @@ Proof. unfold gen_current_size_value, current_size. lia. Qed.
 
 Print Assumptions gen_add_eq_model.
 Print Assumptions gen_current_size_eq_model.
+
+(* ReplayBuffer.sample on a single (unstacked) buffer: the index population is the capacity, indices are drawn WITHOUT replacement
+   (the literal `replace=False` as translated), exactly batch_size of them, every leaf is gathered with the same indices, and the
+   probability handed to the sampler is exactly zero on every slot at or beyond current_size (the unwritten ones) and positive below.
+   These are the hypotheses of the sampler-interface theorem of props/C06.v (sampled rows are stored rows, none twice). *)
+Lemma nth_map_kiota {Y} (f : Z -> Y) (n i : nat) (d : Y) :
+  (i < n)%nat -> nth i (map f (kiota (Z.of_nat n))) d = f (Z.of_nat i).
+Proof.
+  intros H. unfold kiota. rewrite Nat2Z.id, map_map.
+  rewrite (nth_indep _ d (f (Z.of_nat 0))) by (rewrite map_length, seq_length; exact H).
+  rewrite (map_nth (fun x => f (Z.of_nat x)) (seq 0 n) 0%nat i), seq_nth by exact H. reflexivity.
+Qed.
+
+Theorem gen_sample_interface {Ob Ac Ps : Type} (b : @soa Ob Ac Ps) (batch : nat) (k : kpath) :
+  gen_sample_population b batch k = Z.of_nat (b_size b) /\ gen_sample_replace b batch k = false /\
+  length (gen_sample_probs b batch k) = b_size b /\
+  forall i, (i < b_size b)%nat ->
+    ((current_size b <= i)%nat -> Qeq (nth i (gen_sample_probs b batch k) 0%Q) 0%Q) /\
+    ((i < current_size b)%nat -> ~ Qeq (nth i (gen_sample_probs b batch k) 0%Q) 0%Q).
+Proof.
+  unfold gen_sample_population, gen_sample_replace, gen_sample_probs, kzip1.
+  repeat split.
+  - unfold kiota. now rewrite !map_length, seq_length, Nat2Z.id.
+  - intros Hle. rewrite nth_map_kiota by assumption.
+    destruct (Z.ltb_spec (Z.of_nat i) (Z.of_nat (current_size b))); [lia|]. unfold b2Q. apply Qmult_0_l.
+  - intros Hlt. rewrite nth_map_kiota by assumption.
+    destruct (Z.ltb_spec (Z.of_nat i) (Z.of_nat (current_size b))) as [_|Hc]; [|lia]. unfold b2Q.
+    set (c := kcount _).
+    assert (Hc : (0 < c)%Z).
+    { subst c. unfold kcount. apply (Nat2Z.inj_lt 0). 
+      assert (Hin : In true (map (fun e0 : Z => (e0 <? Z.of_nat (current_size b))%Z) (kiota (Z.of_nat (b_size b))))).
+      { apply in_map_iff. exists (Z.of_nat i). split; [apply Z.ltb_lt; lia|].
+        unfold kiota. rewrite Nat2Z.id. apply in_map, in_seq. lia. }
+      destruct (filter (fun b0 : bool => b0) _) eqn:E; [|cbn; lia].
+      exfalso. assert (In true nil) by (rewrite <- E; apply filter_In; split; [exact Hin | reflexivity]). contradiction. }
+    intro H0. unfold Qdiv in H0. apply Qmult_integral in H0. destruct H0 as [H0|H0]; [discriminate|].
+    assert (Hq : ~ Qeq (inject_Z c) 0%Q) by (unfold Qeq, inject_Z; cbn; lia).
+    apply Hq. rewrite <- (Qinv_involutive (inject_Z c)). rewrite H0. reflexivity.
+Qed.
+
+Print Assumptions gen_sample_interface.
